@@ -255,11 +255,44 @@ def r_source(ctx):
                 ctx.site(rid, "Comments|%s" % fi.qual, B, n["l"], {"arg": vf.src(n["a"][0])[:60] if n["a"] else ""})
                 if fi.name != "convert_cddl" or "assigned[" not in vf.src(n["a"][0]):
                     ctx.violation(rid, "Comments|%s" % fi.qual, B, n["l"], "%s constructs ast::Comments from `%s`" % (fi.qual, vf.src(n["a"][0])[:60] if n["a"] else ""))
+    # collect_comment_spans is interpreted on a small pair tree: it must push exactly the spans of the COMMENT pairs, in source order
     fi = f.fn(B, "collect_comment_spans")
-    rules = {x["p"] for x in vf.walk(fi.node) if x["k"] in ("path",) and x["p"].startswith("Rule::")}
-    ctx.site(rid, "collect_comment_spans", B, fi.line, {"rules": sorted(rules)})
-    if rules != {"Rule::COMMENT"}:
-        ctx.violation(rid, "collect_comment_spans", B, fi.line, "collect_comment_spans selects %s, expected only Rule::COMMENT" % sorted(rules))
+    from absint import Interp, MutList, Return, Unknown
+
+    def mk(rule, ident, kids=()):
+        return ("enum", "Pair", {"rule": rule, "id": ident, "kids": list(kids)})
+    tree = mk("cddl", 0, [mk("COMMENT", 1), mk("rule", 2, [mk("S", 3, [mk("COMMENT", 4)]), mk("typename", 5), mk("type_expr", 6, [mk("S", 7, [mk("COMMENT", 8), mk("COMMENT", 9)])])]),
+                          mk("EOI", 10)])
+    pnames = [inp["pat"]["n"] for inp in fi.node["sig"]["inputs"] if "pat" in inp and inp["pat"]["k"] == "pid"]
+
+    def on_call(kind, name, node, args, recv):
+        if kind == "method" and isinstance(recv, tuple) and len(recv) == 3 and recv[1] == "Pair":
+            if name == "clone":
+                return recv
+            if name == "into_inner":
+                return MutList(recv[2]["kids"])
+            if name == "as_rule":
+                return ("enum", "Rule::" + recv[2]["rule"], [])
+            if name == "as_span":
+                return ("span", recv[2]["id"])
+            raise Unknown("Pair::%s is not modelled" % name)
+        if kind == "fn" and name == "collect_comment_spans":
+            return it.call_fn_node(fi.node, args)
+        return NotImplemented
+    out = MutList()
+    it = Interp(env=dict(zip(pnames, [tree, out])), on_call=on_call)
+    try:
+        try:
+            it.block(fi.node["body"])
+        except Return:
+            pass
+        got = list(out)
+        want = [("span", i) for i in (1, 4, 8, 9)]
+        ctx.site(rid, "collect_comment_spans", B, fi.line, {"tree_pairs": 11, "pushed": [g[1] if isinstance(g, tuple) and len(g) == 2 else repr(g) for g in got]})
+        if got != want:
+            ctx.violation(rid, "collect_comment_spans", B, fi.line, "on a pair tree with COMMENT pairs 1, 4, 8, 9 collect_comment_spans yields %r; expected exactly the COMMENT spans in source order" % (got,))
+    except Unknown as e:
+        ctx.incomplete_msg(rid, "collect_comment_spans: %s" % e)
     # the text slice strips exactly the leading ';'
     fi = f.fn(B, "collect_comment_toks")
     txt = None
